@@ -23,6 +23,7 @@ import re
 import shutil
 import subprocess
 import sys
+import threading
 import time
 import traceback
 from concurrent.futures import ThreadPoolExecutor
@@ -426,7 +427,17 @@ def proof_obligations(ctx):
     # build only what this property needs (its Props and Run files and their dependencies), so that
     # a broken file of another property cannot mask or fake a result here; setup.sh builds everything
     targets = targets_of(mod)
-    rc, log = build(only=targets)
+    # the translated obligations run in a thread of their own: translation and compilation of the generated
+    # definitions overlap with the build; the equivalence proofs wait for the build (they import its .vo files)
+    acc, th, build_done = None, None, threading.Event()
+    if getattr(mod, "TRANSLATED", None):
+        acc = _Acc(ctx)
+        th = threading.Thread(target=_run_translated, args=(acc, build_done), daemon=True)
+        th.start()
+    try:
+        rc, log = build(only=targets)
+    finally:
+        build_done.set()
     if rc != 0:
         ctx.proof_failures.append({"what": "Coq development does not build", "log": log[-3000:]})
     hits = scan_forbidden()
@@ -470,10 +481,33 @@ def proof_obligations(ctx):
             ok += 1
     ctx.discharged = 0 if (rc != 0 or hits) else ok
     ctx.axioms = sorted(axioms)
+    if th is not None:
+        t_join = time.time()
+        th.join()
+        ctx.obligations += acc.obligations
+        ctx.discharged += acc.discharged
+        ctx.proof_failures += acc.proof_failures
+        ctx.axioms = sorted(set(ctx.axioms) | set(acc.axioms))
+        ctx.trusted_extra += acc.trusted_extra
+        ctx.extra.update(acc.extra)
+        # wall time added to the check: what the main flow still had to wait for after its own work
+        ctx.extra["translated_added_wall_s"] = round(time.time() - t_join, 2)
+
+
+class _Acc:
+    """what translated_obligations produces; merged into the Ctx by proof_obligations"""
+
+    def __init__(self, ctx):
+        self.mod, self.work, self._coqc = ctx.mod, ctx.work, ctx._coqc
+        self.obligations = self.discharged = 0
+        self.proof_failures, self.axioms, self.extra, self.trusted_extra = [], [], {}, []
+
+
+def _run_translated(acc, build_done):
     try:
-        translated_obligations(ctx)
+        translated_obligations(acc, build_done)
     except Exception as e:      # fail closed, but let the correspondence and the oracle run
-        ctx.proof_failures.append({"what": "translated obligations crashed: %r" % (e,),
+        acc.proof_failures.append({"what": "translated obligations crashed: %r" % (e,),
                                    "traceback": traceback.format_exc()[-2000:]})
 
 
@@ -512,7 +546,7 @@ def _source_diff(qual, current):
                                         "reference/%s.py.txt" % qual, "%s (current source)" % qual))[:6000]
 
 
-def translated_obligations(ctx):
+def translated_obligations(ctx, build_done=None):
     """For every entry of the property module's TRANSLATED list: regenerate the Gallina definitions
     from $VERIF_REPO's source (tools/py2coq.py, fail-closed), compile them, compile the committed proof
     that they equal the hand-written model (coq/theories/GenProofs/<Name>Equiv.v) against them, and
@@ -580,6 +614,10 @@ def translated_obligations(ctx):
     tact_ok = r1[0][0] == 0
     if not tact_ok:
         ctx.proof_failures.append({"what": "GenProofs/GenTactics.v does not compile", "stderr": r1[0][2][-1500:]})
+    t_wait = time.time()
+    if build_done is not None:
+        build_done.wait()
+    t_wait = time.time() - t_wait
     stage2 = []
     for (en, info, path, eq_dst), (rc, out, err) in zip(jobs, r1[1:]):
         if rc != 0:
@@ -648,7 +686,7 @@ def translated_obligations(ctx):
                        "model": en.get("model", ""), "status": "proved equal to the model" if ok == len(en["theorems"]) else "failed",
                        "sha1": {i["function"]: i["sha1"] for i in info},
                        "changed_since_reference": changed})
-    ctx.extra["translated_s"] = round(time.time() - t0, 2)
+    ctx.extra["translated_s"] = round(time.time() - t0 - t_wait, 2)
 
 
 def _parse_axioms(text):
